@@ -55,7 +55,7 @@ Proof.
 Qed.
 
 (* ---- the writer ---------------------------------------------------------- *)
-Definition not_close (o : wop X) : Prop := match o with WClose _ => False | _ => True end.
+Definition not_close (o : wop X S) : Prop := match o with WClose _ _ => False | _ => True end.
 
 Lemma wstep_keeps_flag (f : file) o : not_close o -> f_writing X D S (wstep X D S f o) = f_writing X D S f.
 Proof. destruct o; cbn; tauto. Qed.
@@ -85,13 +85,13 @@ Lemma export_ops_prefix_not_close (p : spt) ops rest :
   export_ops X D S p = ops ++ rest -> rest <> [] -> Forall not_close ops.
 Proof.
   unfold export_ops. intros H Hr.
-  set (body := WInit X (s_init X D S p)
-               :: map (fun kt => WMpo X (fst kt) (snd kt)) (number_from 0 (s_mpos X D S p))
-               ++ map (fun kt => WCap X (fst kt) (snd kt)) (number_from 0 (s_caps X D S p))).
+  set (body := WInit X S (s_init X D S p)
+               :: map (fun kt => WMpo X S (fst kt) (snd kt)) (number_from 0 (s_mpos X D S p))
+               ++ map (fun kt => WCap X S (fst kt) (snd kt)) (number_from 0 (s_caps X D S p))).
   assert (Hb : Forall not_close body).
   { unfold body. constructor; [exact I|]. apply Forall_app; split; apply Forall_forall;
       intros o Ho; apply in_map_iff in Ho; destruct Ho as [kt [<- _]]; exact I. }
-  assert (Heq : body ++ [WClose X] = ops ++ rest).
+  assert (Heq : body ++ [WClose X S] = ops ++ rest).
   { rewrite <- H. unfold body. cbn [app]. rewrite <- app_assoc. reflexivity. }
   destruct (exists_last Hr) as [rest' [o Hlast]]. subst rest.
   rewrite app_assoc in Heq. apply app_inj_tail in Heq. destruct Heq as [Heq _].
@@ -110,12 +110,12 @@ Lemma fold_wstep_app ops1 ops2 (f : file) :
   fold_left (wstep X D S) (ops1 ++ ops2) f = fold_left (wstep X D S) ops2 (fold_left (wstep X D S) ops1 f).
 Proof. apply fold_left_app. Qed.
 
-Definition export_body (p : spt) : list (wop X) :=
-  WInit X (s_init X D S p)
-  :: map (fun kt => WMpo X (fst kt) (snd kt)) (number_from 0 (s_mpos X D S p))
-  ++ map (fun kt => WCap X (fst kt) (snd kt)) (number_from 0 (s_caps X D S p)).
+Definition export_body (p : spt) : list (wop X S) :=
+  WInit X S (s_init X D S p)
+  :: map (fun kt => WMpo X S (fst kt) (snd kt)) (number_from 0 (s_mpos X D S p))
+  ++ map (fun kt => WCap X S (fst kt) (snd kt)) (number_from 0 (s_caps X D S p)).
 
-Lemma export_ops_split (p : spt) : export_ops X D S p = export_body p ++ [WClose X].
+Lemma export_ops_split (p : spt) : export_ops X D S p = export_body p ++ [WClose X S].
 Proof. unfold export_ops, export_body. cbn [app]. rewrite <- app_assoc. reflexivity. Qed.
 
 Theorem clean_close_unflagged (p : spt) : f_writing X D S (export X D S p) = false.
@@ -128,11 +128,11 @@ Definition wf (p : spt) : Prop :=
   Forall clean_tensor (s_mpos X D S p) /\ Forall clean_tensor (s_caps X D S p).
 
 Lemma fold_mpos ts : forall k (f : file),
-  fold_left (wstep X D S) (map (fun kt => WMpo X (fst kt) (snd kt)) (number_from k ts)) f =
+  fold_left (wstep X D S) (map (fun kt => WMpo X S (fst kt) (snd kt)) (number_from k ts)) f =
   set_all X D S (set_mpo X D S) k ts f.
 Proof. induction ts as [|t ts IH]; intros k f; cbn; [reflexivity|]. apply IH. Qed.
 Lemma fold_caps ts : forall k (f : file),
-  fold_left (wstep X D S) (map (fun kt => WCap X (fst kt) (snd kt)) (number_from k ts)) f =
+  fold_left (wstep X D S) (map (fun kt => WCap X S (fst kt) (snd kt)) (number_from k ts)) f =
   set_all X D S (set_cap X D S) k ts f.
 Proof. induction ts as [|t ts IH]; intros k f; cbn; [reflexivity|]. apply IH. Qed.
 
@@ -216,7 +216,7 @@ Theorem roundtrip_simple (p : spt) : wf p -> import_simple X D S (export X D S p
 Proof.
   intros (Hi & Hm & Hc).
   unfold export, export_ops. cbn [fold_left]. rewrite !fold_wstep_app, fold_mpos, fold_caps.
-  set (f0 := wstep X D S (create X D S p) (WInit X (s_init X D S p))).
+  set (f0 := wstep X D S (create X D S p) (WInit X S (s_init X D S p))).
   pose proof (set_all_mpos (s_mpos X D S p) f0) as Hmp. cbn zeta in Hmp.
   change (length (f_mpos X D S f0)) with 0 in Hmp.
   set (f1 := set_all X D S (set_mpo X D S) 0 (s_mpos X D S p) f0) in *.
@@ -243,6 +243,81 @@ Corollary imported_initial_none (p : spt) : wf p -> s_init X D S p = None ->
 Proof. intros H Hn. exists p. split; [apply roundtrip_simple; exact H|exact Hn]. Qed.
 
 (* ---- decision tables -------------------------------------------------------- *)
+(* ---- name / description set while the file is being written --------------------------- *)
+Definition is_rename (o : wop X S) : bool := match o with WName _ _ _ | WDesc _ _ _ => true | _ => false end.
+Definition last_name (ops : list (wop X S)) (n0 : S) : S :=
+  fold_left (fun acc o => match o with WName _ _ n => n | _ => acc end) ops n0.
+Definition last_desc (ops : list (wop X S)) (n0 : S) : S :=
+  fold_left (fun acc o => match o with WDesc _ _ n => n | _ => acc end) ops n0.
+
+(* everything but the two attributes *)
+Definition payload (f : file) :=
+  (f_writing X D S f, f_hs X D S f, f_dt X D S f, f_tin X D S f, f_tout X D S f, f_init X D S f, f_mpos X D S f, f_caps X D S f).
+
+Lemma fold_names ops : forall f : file,
+  f_name X D S (fold_left (wstep X D S) ops f) = last_name ops (f_name X D S f) /\
+  f_desc X D S (fold_left (wstep X D S) ops f) = last_desc ops (f_desc X D S f).
+Proof.
+  induction ops as [|o ops IH]; intros f; [split; reflexivity|].
+  unfold last_name, last_desc. cbn [fold_left]. destruct (IH (wstep X D S f o)) as [Hn Hd].
+  rewrite Hn, Hd. unfold last_name, last_desc. destruct o; split; reflexivity.
+Qed.
+
+(* the attributes of the file are the ones set last (or those given at creation), whatever else was written in between *)
+Theorem names_follow_setters (p : spt) ops :
+  f_name X D S (fold_left (wstep X D S) ops (create X D S p)) = last_name ops (s_name X D S p) /\
+  f_desc X D S (fold_left (wstep X D S) ops (create X D S p)) = last_desc ops (s_desc X D S p).
+Proof. apply (fold_names ops (create X D S p)). Qed.
+
+Lemma wstep_rename_payload (f : file) o : is_rename o = true -> payload (wstep X D S f o) = payload f.
+Proof. destruct o; cbn; intros H; try discriminate; reflexivity. Qed.
+
+Lemma wstep_payload_congr (f g : file) o : payload f = payload g -> payload (wstep X D S f o) = payload (wstep X D S g o).
+Proof.
+  unfold payload. intros H. inversion H as [[H1 H2 H3 H4 H5 H6 H7 H8]].
+  destruct o; cbn; rewrite ?H1, ?H2, ?H3, ?H4, ?H5, ?H6, ?H7, ?H8; reflexivity.
+Qed.
+
+(* ... and setting them changes NOTHING else: the 'writing' flag, the dimension, time step, transforms and every tensor slot
+   are those of the same writer with the renames left out *)
+Theorem renames_invisible ops : forall f g : file, payload f = payload g ->
+  payload (fold_left (wstep X D S) ops f) =
+  payload (fold_left (wstep X D S) (filter (fun o => negb (is_rename o)) ops) g).
+Proof.
+  induction ops as [|o ops IH]; intros f g H; [exact H|].
+  cbn [fold_left filter]. destruct (is_rename o) eqn:E; cbn [negb].
+  - apply IH. rewrite wstep_rename_payload by exact E. exact H.
+  - cbn [fold_left]. apply IH. apply wstep_payload_congr. exact H.
+Qed.
+
+Lemma import_simple_names (f : file) q : import_simple X D S f = Ok q ->
+  s_name X D S q = f_name X D S f /\ s_desc X D S q = f_desc X D S f.
+Proof.
+  unfold import_simple. destruct (get_slot X 0 (f_init X D S f)); try discriminate.
+  destruct (read_mpos X _ 0 (f_mpos X D S f)); try discriminate.
+  destruct (read_caps X _ 0 (f_caps X D S f)); try discriminate.
+  intros H. injection H as <-. split; reflexivity.
+Qed.
+
+(* a file object created with one name, renamed / described any number of times while it is filled, then closed: whatever is
+   imported from it carries the attributes set last *)
+Theorem names_set_later (p : spt) ops q :
+  import_simple X D S (close X D S (fold_left (wstep X D S) ops (create X D S p))) = Ok q ->
+  s_name X D S q = last_name ops (s_name X D S p) /\ s_desc X D S q = last_desc ops (s_desc X D S p).
+Proof.
+  intros H. apply import_simple_names in H. cbn [close f_name f_desc] in H.
+  destruct (names_follow_setters p ops) as [Hn Hd]. rewrite <- Hn, <- Hd. exact H.
+Qed.
+
+(* the behaviour of a setter that rewrites ALL attributes with writing = false (a well-meant refactoring): a writer that
+   renames its file and dies before close() leaves a file that opens cleanly although tensors are missing *)
+Definition bad_wstep (f : file) (o : wop X S) : file :=
+  match o with
+  | WName _ _ n => close X D S (set_name X D S n f)
+  | WDesc _ _ n => close X D S (set_desc X D S n f)
+  | _ => wstep X D S f o
+  end.
+
 Theorem no_clobber (m : mode) :
   (open_mode m true = Replaced <-> m = MOverwrite) /\
   (m = MWrite -> open_mode m true = Refused) /\
